@@ -121,3 +121,10 @@ def search(ctx):
 
 def replay(ctx, case):
     return replay_eval(ctx, "C08", case)
+
+
+MANIFEST = dict(
+    text='Proof (PARTIAL): for every candidate oracle the tree built under the two guards of _build_approximation_tree contains only nodes with accounted loss <= budget and saved CNOTs > 0 (C08_build_inv), and _search_best returns one of the leaves it is given (C08_search_best_in/preserves). Tie: every _search_best call of a run is replayed inside Coq on the logged leaves (losses as exact rationals of the floats) and must select the same leaf; every tree is walked for the invariants. Exactness at l=0, plan faithfulness, true loss for n<=3 and CNOT comparison are evaluated.',
+    note='Modelled, not verified: SVD-based candidate oracle and CNOT estimates (arbitrary in the theorems); plan assembly evaluated only.',
+    technique='Coq proof (invariant by induction over the search tree, any oracle) + bit-exact replay of the selection rule (vm_compute) + evaluation',
+    design_ref='DESIGN.md section 4, C08')
